@@ -15,6 +15,7 @@ def one(name):
     d = os.path.join(HERE, 'seeded', name)
     meta = json.load(open(os.path.join(d, 'meta.json')))
     checks = meta.get('checks_that_catch_it') or [meta['property']]
+    not_judged = bool(meta.get('not_judged'))
     p = subprocess.run([os.path.join(HERE, 'tools', 'seed_eval.sh'), d] + checks, stdout=subprocess.PIPE,
                        stderr=subprocess.STDOUT, timeout=7200)
     out = p.stdout.decode('utf-8', 'replace')
@@ -24,7 +25,8 @@ def one(name):
     res = re.findall(r'check (C\d+) \(\w+\): exit (\d+)', out)
     mech = re.search(r'mechanism=(\S+)', out)
     return name, meta['property'], (tests.group(1) if tests else '?'), (dw.group(1) if dw else '?'), (
-        dwo.group(1) if dwo else '?'), res, (mech.group(1) if mech else '')
+        dwo.group(1) if dwo else '?'), res, ('(not judged: outside the statement, see meta.json)' if not_judged else
+                                             mech.group(1) if mech else '')
 
 
 def main():
@@ -45,18 +47,25 @@ def main():
     lines = ['# Stored seeded changes against the current checks', '',
              'Produced by `tools/seed_all.py` (each change applied to a scratch worktree of `/repo` HEAD; quick tier).', '',
              '| seed | property | tests with the change | demo with / without | checks (exit code) | first mechanism reported |', '|---|---|---|---|---|---|']
+    skipped = 0
     for name, prop, tests, dw, dwo, res, mech in rows:
+        if mech.startswith('(not judged'):
+            skipped += 1
+            lines.append('| %s | %s | %s | %s / %s | %s | %s |' % (name, prop, tests.split(' in ')[0], dw, dwo,
+                                                               ', '.join('%s: %s' % x for x in res), mech))
+            continue
         caught = any(rc == '1' for c, rc in res)
         good = caught and 'passed' in tests and 'failed' not in tests and dw != '0' and dwo == '0'
         ok += good
         lines.append('| %s | %s | %s | %s / %s | %s | %s |' % (name, prop, tests.split(' in ')[0], dw, dwo,
                                                            ', '.join('%s: %s' % x for x in res), mech[:90]))
-    lines += ['', '%d of %d stored changes are confirmed (tests pass, demo discriminates) and reported by at least one of their checks.' % (ok, len(rows))]
+    lines += ['', '%d of %d stored changes are confirmed (tests pass, demo discriminates) and reported by at least one of their checks%s.' % (
+        ok, len(rows) - skipped, '; %d more are stored but not judged (outside the statement of their property)' % skipped if skipped else '')]
     if not args:
         with open(os.path.join(HERE, 'seeded', 'RESULTS.md'), 'w') as f:
             f.write('\n'.join(lines) + '\n')
     print(lines[-1])
-    return 0 if ok == len(rows) else 1
+    return 0 if ok == len(rows) - skipped else 1
 
 
 if __name__ == '__main__':
